@@ -4,13 +4,14 @@
 (* insights.collect.collect() (+ load of what it wrote) must be a behaviour *)
 (* of the specification, phase by phase.                                    *)
 (*                                                                         *)
-(* A case is recorded as TWO traces: "cfg" (apply_default_enabled,          *)
-(* apply_configs, apply_blacklist, create_context, get_to_persist from the  *)
-(* manifest) and "run" (the component run, the archive, the load) started   *)
-(* from the configuration that was OBSERVED at the end of the first part -  *)
-(* so a deviation in the configuration phases does not hide the run from    *)
-(* the validation and vice versa.  The deny configuration AS WRITTEN in the *)
-(* manifest is still what DeniedNeverCollected is judged against.           *)
+(* A case is recorded as THREE traces: "cfg" (apply_default_enabled,        *)
+(* apply_configs from the manifest), "bl" (apply_blacklist, create_context, *)
+(* get_to_persist, started from the ENABLED table observed after            *)
+(* apply_configs) and "run" (the component run, the archive, the load,      *)
+(* started from the configuration observed at the end of "bl") - so a       *)
+(* deviation in one part does not hide the others from the validation.      *)
+(* The deny configuration AS WRITTEN in the manifest is still what          *)
+(* DeniedNeverCollected is judged against.                                  *)
 (***************************************************************************)
 EXTENDS CollectRun, Json, IOUtils, TLCExt
 
@@ -32,7 +33,9 @@ CfgS0(t) == LoadManifest(Base(t))
 RunS0(t) == [Base(t) EXCEPT !.pc = "run", !.enabled = Tbl(t.obs.enabled), !.denyF = Rng(t.obs.files),
                             !.denyC = Rng(t.obs.commands), !.bl = Rng(t.obs.specs), !.bl0 = Rng(t.obs.specs),
                             !.ctx = "host", !.toPersist = Rng(t.obs.set)]
-StartOf(t) == IF t.seg = "cfg" THEN CfgS0(t) ELSE RunS0(t)
+BlS0(t)  == [Base(t) EXCEPT !.pc = "blacklist", !.enabled = Tbl(t.obs.enabled)]
+StartOf(t) == IF t.seg = "cfg" THEN CfgS0(t) ELSE IF t.seg = "bl" THEN BlS0(t) ELSE RunS0(t)
+EndPc(t)   == IF t.seg = "cfg" THEN "blacklist" ELSE IF t.seg = "bl" THEN "run" ELSE "done"
 
 ---------------------------------------------------------------------------
 (* cfg segment *)
@@ -95,6 +98,7 @@ Accepts ==
       [] Ev.ev = "ran"       -> RanOK
       [] Ev.ev = "finish"    -> FinishOK
       [] Ev.ev = "load"      -> LoadOK
+      [] Ev.ev = "end"       -> s.pc = EndPc(T)     \* every phase was recorded
       [] OTHER               -> FALSE
 
 Apply ==
@@ -106,6 +110,7 @@ Apply ==
       [] Ev.ev = "att"       -> s' = AfterAtt(Ev.c)
       [] Ev.ev = "ran"       -> s' = EndRun(s)
       [] Ev.ev = "finish"    -> s' = Finish(s)
+      [] Ev.ev = "end"       -> UNCHANGED s
       [] OTHER               -> s' = LoadBack(s)
 
 ---------------------------------------------------------------------------
@@ -238,7 +243,7 @@ Diagnose ==
       [] Ev.ev = "escaped"   -> "NoEscape:" \o Ev.exc \o ":in-phase-" \o s.pc
       [] Ev.ev = "hung"      -> "Terminates:collect-does-not-return:" \o s.mf.strategy \o ":max_workers-" \o s.mf.workers \o
                                 (IF \E c \in s.toPersist : s.enabled[c] /\ c \in {"IB", "PB"} THEN ":multi-output-component-persisted" ELSE "")
-      [] Ev.ev = "truncated" -> "Phases:recording-ends-in-phase-" \o s.pc
+      [] Ev.ev = "end"       -> "Phases:recording-ends-in-phase-" \o s.pc
       [] OTHER               -> "unknown-event"
 
 Advance ==
